@@ -1,9 +1,9 @@
 import Driver.Proto
-namespace Driver
+namespace Driver.C16
 open Scrapli
 
 /-- line-protocol handler for property C16 (arguments after the leading `c16` token) -/
 def handleC16 : List String → String
   | _ => "bad-op"
 
-end Driver
+end Driver.C16
